@@ -1,7 +1,7 @@
-SPECIFICATION Spec
+SPECIFICATION FairSpec
 CONSTANTS
   Contents = {"A", "B"}
-  MaxOps = 2
+  MaxOps = 3
   Kinds = {"write"}
   Fates = {"deliver", "drop"}
   Rejects = {}
@@ -9,7 +9,7 @@ CONSTANTS
   Recheck = TRUE
   Post = "forget"
   Record = "always"
-  Breaks = FALSE
-  Blind = FALSE
-  Export = TRUE
-INVARIANTS Emit
+  Breaks = TRUE
+  Blind = TRUE
+  Export = FALSE
+INVARIANTS NoHazard
